@@ -1,4 +1,4 @@
-import MpVerif.C05.Model
+import MpVerif.C05.Spec
 import MpVerif.C14.Show
 /-! Line driver for C05.  No logic of its own: parses a solution, calls `writeSol` and
 `readSol` on the written bytes, prints both canonically.
@@ -32,7 +32,18 @@ def parseSuf (s : String) : Option (Suf Tok) :=
 
 def runCase (w0 : List String) : String :=
   -- an optional last field names the writer entry point used on the C++ side (direct / final / stub): same model
-  let w := if w0.length = 15 then w0.take 14 else w0
+  let w := if w0.length ≥ 15 then w0.take 14 else w0
+  -- 16th field `ints=<token hex>:<n>,…`: the tokens the writer printed for the integral reals |x| < 10^15 of this case, with their integer value
+  let intPairs : List (Bytes × Int) := match w0.drop 15 with
+    | [f] => if f.startsWith "ints=" ∧ f != "ints=-" then
+        ((f.drop 5).toString.splitOn ",").filterMap (fun p => match p.splitOn ":" with
+          | [t, n] => match unhex t, n.toInt? with
+            | some t, some n => some (t, n)
+            | _, _ => none
+          | _ => none)
+      else []
+    | _ => []
+  let intOk := (intPairs.filter (fun p => encIntegralReal p.2 == p.1)).length
   match w with
   | ["sol", id, fx, nv, nc, msg, opts, ncons, nvars, duals, primals, objno, status, sufs] =>
     match fx.toNat?, nv.toNat?, nc.toNat?, unhex msg, parseList String.toInt? "," opts, ncons.toNat?, nvars.toNat?,
@@ -44,7 +55,7 @@ def runCase (w0 : List String) : String :=
       let good := (reals.filter (fun t => goodNumB t.1)).length
       let stoks := realEntryToks tokCodec sufs
       let sgood := (stoks.filter goodSufTokB).length
-      s!"{id} good={good}/{reals.length} goodsuf={sgood}/{stoks.length} bytes={hex b} || {showResult (readSol (fx % 2 != 0) (fx / 2 % 2 != 0) nv nc ⟨0, .all, .all, .all⟩ b)}"
+      s!"{id} good={good}/{reals.length} goodsuf={sgood}/{stoks.length} intok={intOk}/{intPairs.length} bytes={hex b} || {showResult (readSol (fx % 2 != 0) (fx / 2 % 2 != 0) nv nc ⟨0, .all, .all, .all⟩ b)}"
     | _, _, _, _, _, _, _, _, _, _, _, _ => "bad-op"
   | _ => "bad-op"
 
